@@ -226,6 +226,12 @@ def _u16_origin(cx, fn, du, op):
                 return ("const", str(rv[1][1].get("i")))
             l = op_base(rv[1])
             continue
+        if rv[0] == "agg" and len(rv[2]) == 1:
+            # Ok(x) / Some(x) wrappers are transparent
+            if rv[2][0][0] == "k":
+                return ("const", str(rv[2][0][1].get("i")))
+            l = op_base(rv[2][0])
+            continue
         return ("unknown", rv[0])
     return ("unknown", "chain too long")
 
@@ -393,7 +399,80 @@ def rule_det(cx, tier):
     return r
 
 
+SORTS = ("slice::sort", "slice::sort_unstable", "slice::sort_by", "slice::sort_by_key", "slice::sort_unstable_by",
+         "slice::sort_unstable_by_key", "slice::sort_by_cached_key")
+
+
+def _sorted_before_use(cx, fn, c):
+    """is the container produced by call `c` sorted before anything else reads it (order made canonical)"""
+    d = c.dest[0]
+    if c.dest[1]:
+        return False
+    du = cx.du(fn)
+    cfg = cx.cfg(fn)
+    for s in fn.calls():
+        if not (s.is_(*SORTS) and s.args and cfg.dominates(c.bb, s.bb)):
+            continue
+        # receiver chain back to d
+        chain = set()
+        l = op_base(s.args[0])
+        ok = False
+        for _ in range(8):
+            if l is None:
+                break
+            if l == d:
+                ok = True
+                break
+            chain.add(l)
+            dd = du.single_def(l)
+            if dd is None:
+                break
+            if dd[2] == "call":
+                if dd[3].is_("Deref::deref", "DerefMut::deref_mut") and dd[3].args:
+                    l = op_base(dd[3].args[0])
+                    continue
+                break
+            rv = dd[3]
+            if rv[0] in ("ref", "rawptr"):
+                l = rv[2][0]
+            elif rv[0] == "use":
+                l = op_base(rv[1])
+            else:
+                break
+        if not ok:
+            continue
+        # every other use of d must come after the sort
+        fine = True
+        for b in fn.blocks:
+            if b.cleanup or b.idx not in cfg.reach:
+                continue
+            uses_here = False
+            for st in b.stmts:
+                if st[0] != "a":
+                    continue
+                from ..mir import rv_places
+                for pl in rv_places(st[2]):
+                    if pl[0] == d and not (st[1][0] in chain and not st[1][1]):
+                        uses_here = True
+            t = b.term
+            if t[0] == "call":
+                for a in t[1]["args"]:
+                    if op_base(a) == d:
+                        uses_here = True
+            elif t[0] == "drop":
+                pass
+            if uses_here and b.idx != c.bb and not (cfg.dominates(s.bb, b.idx) and b.idx != s.bb):
+                fine = False
+        if fine:
+            return True
+    return False
+
+
 def _det_verdict(r, cx, fn, c, kind, what):
+    if kind == "ordered" and _sorted_before_use(cx, fn, c):
+        r.sample({"fn": fn.qual, "consumer": c.short, "line": c.line, "target_kind": kind,
+                  "verdict": "order made canonical: sorted before any other use"})
+        return
     if kind == "ordered":
         r.add(Finding("R-DET", fn.qual, c.short, f"{what} is collected into an ordered container by {c.short}: the "
                       f"element order depends on RandomState and differs from run to run, so compiling the same text "
